@@ -119,13 +119,22 @@ pub fn new_line(line: &str) -> String {
 pub fn threads_line(line: &str) -> String {
     let f: Vec<&str> = line.split('\t').collect();
     let nthreads: usize = f[0].parse().unwrap();
-    let shared = f[1] == "1";
+    let shared = f[1].starts_with('1');
+    // "i": built with RegexBuilder::case_insensitive(true); "s": with a raised delegate_size_limit;
+    // "l": with a backtrack limit - a clone must behave as the regex it was cloned from
+    let opt = f[1].chars().nth(1);
     let rounds: usize = f[2].parse().unwrap();
     let pat = unhex_str(f[3]);
     let texts: Vec<String> = f[4..].iter().map(|t| unhex_str(t)).collect();
     fn assert_traits<T: Send + Sync + Clone>() {}
     assert_traits::<Regex>();
-    let re = Regex::new(&pat).expect("thread patterns compile");
+    let re = match opt {
+        Some('i') => fancy_regex::RegexBuilder::new(&pat).case_insensitive(true).build(),
+        Some('s') => fancy_regex::RegexBuilder::new(&pat).delegate_size_limit(64 << 20).build(),
+        Some('l') => fancy_regex::RegexBuilder::new(&pat).backtrack_limit(3).build(),
+        _ => Regex::new(&pat),
+    }
+    .expect("thread patterns compile");
     let show = |re: &Regex, t: &str| -> String {
         match catch_unwind(AssertUnwindSafe(|| re.captures(t))) {
             Err(_) => "PANIC".into(),
@@ -141,7 +150,17 @@ pub fn threads_line(line: &str) -> String {
     let bad = std::sync::atomic::AtomicUsize::new(0);
     std::thread::scope(|sc| {
         for k in 0..nthreads {
-            let re_local = if shared { None } else { Some(re.clone()) };
+            let re_local = if shared {
+                None
+            } else {
+                match catch_unwind(AssertUnwindSafe(|| re.clone())) {
+                    Ok(c) => Some(c),
+                    Err(_) => {
+                        bad.fetch_add(1000, std::sync::atomic::Ordering::Relaxed);
+                        None
+                    }
+                }
+            };
             let (re, texts, expected, bad) = (&re, &texts, &expected, &bad);
             sc.spawn(move || {
                 let r: &Regex = re_local.as_ref().unwrap_or(re);
